@@ -1246,6 +1246,95 @@ impl Sess {
         reset_time();
     }
 
+    /// Serving side: GetBlockTransactions for stored blocks with transaction / uncle indexes at
+    /// and beyond the ends of the block's lists. The handler must not panic and must answer with
+    /// exactly the existing entries, in request order.
+    fn serve_episode(&mut self, r: &mut Report) {
+        if self.dead {
+            return;
+        }
+        let tip = self.n_tip();
+        let path = self.tg.rc.path(&tip);
+        let mut blocks: Vec<BlockView> = path.iter().rev().take(40).filter_map(|x| stored_block(&self.n.shared, x)).collect();
+        // prefer blocks with uncles and with transactions, keep a plain one as well
+        blocks.sort_by_key(|b| std::cmp::Reverse(b.uncles().hashes().len() * 10 + b.transactions().len().min(9)));
+        let mut chosen: Vec<BlockView> = blocks.iter().take(3).cloned().collect();
+        if let Some(last) = blocks.last() {
+            chosen.push(last.clone());
+        }
+        let tip_ts = stored_block(&self.n.shared, &tip).map(|b| b.timestamp()).unwrap_or(0);
+        vnode::node::set_time(tip_ts + 1_000);
+        let max_u = self.n.shared.consensus().max_uncles_num();
+        for b in chosen {
+            let t = b.transactions().len() as u32;
+            let n = b.uncles().hashes().len() as u32;
+            let mut reqs: Vec<(Vec<u32>, Vec<u32>)> = vec![
+                (vec![t], vec![n]),
+                (vec![t.saturating_sub(1), t], vec![n.saturating_sub(1), n]),
+                (vec![0, t + 1, u32::MAX], vec![n + 1]),
+                (vec![], vec![u32::MAX]),
+                ((0..t).collect(), (0..n).collect()),
+            ];
+            for (_, u) in reqs.iter_mut() {
+                u.truncate(max_u);
+            }
+            for (ti, ui) in reqs {
+                let nc = Arc::new(netctx::RecordingContext::new(SupportProtocols::RelayV3));
+                let content = packed::GetBlockTransactions::new_builder()
+                    .block_hash(b.hash())
+                    .indexes(ti.as_slice())
+                    .uncle_indexes(ui.as_slice())
+                    .build();
+                let msg = packed::RelayMessage::new_builder().set(content).build().as_bytes();
+                let nc1: Arc<dyn ckb_network::CKBProtocolContext + Sync> = nc.clone();
+                let rt = &self.rt;
+                let relayer = &mut self.n.relayer;
+                let peer: PeerIndex = 9usize.into();
+                let res = catch_unwind(AssertUnwindSafe(|| rt.block_on(relayer.received(nc1, peer, msg))));
+                r.eval();
+                r.count("serve.requests");
+                r.distinct_str(&format!("serve|{}|{}|{:?}|{:?}", t.min(3), n, ti.iter().map(|i| (*i as i64 - t as i64).clamp(-2, 2)).collect::<Vec<_>>(), ui.iter().map(|i| (*i as i64 - n as i64).clamp(-2, 2)).collect::<Vec<_>>()));
+                let wit = self.witness(json!({"block": vbase::hex(b.hash().as_slice()), "transactions_in_block": t, "uncles_in_block": n, "indexes": ti, "uncle_indexes": ui}));
+                if let Err(pn) = res {
+                    let _ = hooks::take_panics();
+                    let m = panic_msg(&pn);
+                    r.violation(
+                        "relay.received_panicked@get_block_transactions_index_at_or_past_end",
+                        format!("Relayer::received panicked on GetBlockTransactions(indexes={ti:?}, uncle_indexes={ui:?}) for a stored block with {t} transactions and {n} uncles: {m}"),
+                        wit,
+                    );
+                    self.dead = true;
+                    vnode::node::set_time(ChainParams::default().genesis_timestamp + 3_000_000_000);
+                    return;
+                }
+                let want_t: Vec<packed::Byte32> = ti.iter().filter_map(|i| b.transactions().get(*i as usize).map(|x| x.hash())).collect();
+                let want_u: Vec<packed::Byte32> = ui.iter().filter_map(|i| b.uncles().hashes().get(*i as usize)).collect();
+                let t0 = Instant::now();
+                let got = loop {
+                    let g = nc.block_transactions_replies();
+                    if !g.is_empty() || t0.elapsed() > Duration::from_secs(3) {
+                        break g;
+                    }
+                    std::thread::sleep(Duration::from_millis(1));
+                };
+                match got.first() {
+                    None => r.count("serve.no_reply_observed"),
+                    Some((gt, gu)) => {
+                        r.count("serve.replies_checked");
+                        if *gt != want_t || *gu != want_u {
+                            r.violation(
+                                "relay.get_block_transactions_reply_differs_from_block",
+                                format!("reply carries {} transactions / {} uncles, the block's entries at the requested positions are {} / {}", gt.len(), gu.len(), want_t.len(), want_u.len()),
+                                wit,
+                            );
+                        }
+                    }
+                }
+            }
+        }
+        vnode::node::set_time(ChainParams::default().genesis_timestamp + 3_000_000_000);
+    }
+
     /// Message-level episode with two peers: peer A announces the next block honestly (the node
     /// lacks its transactions and asks A for them); peer B announces the SAME header with a
     /// different body (extra short ids and/or extra uncle hashes), is asked for B's missing
@@ -1606,6 +1695,7 @@ fn run_session(si: u64, rng: &mut Rng, r: &mut Report, deadline: Instant, rounds
         }
         s.round(r, variants);
     }
+    s.serve_episode(r);
     if !s.dead {
         match si % 5 {
             0 => s.message_episode(r, true),
@@ -1661,6 +1751,8 @@ fn main() {
         }
     }
     let q = args.tier == vbase::Tier::Quick;
+    r.require("serve.replies_checked", if q { 20 } else { 100 });
+    r.require("msg2.episodes", 1);
     r.require("outcome.block", if q { 200 } else { 2000 });
     r.require("block.byte_identical", if q { 100 } else { 1000 });
     r.require("outcome.missing", if q { 100 } else { 1000 });
